@@ -38,7 +38,7 @@ ASSUMPTIONS = [
 ]
 
 NCH = 3
-FS = 100.0
+FS = 102.4         # a non-integer sampling rate
 REL = 1e-9
 HALF_PI = math.pi / 2
 
